@@ -194,3 +194,259 @@ impl EdgeList {
         }
     @*/
 }
+
+// ---- C12 definitions (same wording as units/inc/matrix_ops.inc.rs) ----
+
+/// the unordered pair {u, v} is joined by at least one arc
+spec fn joined(g: EdgeList, u: int, v: int) -> bool { g.has(u, v) || g.has(v, u) }
+
+/// ... by exactly one arc
+spec fn joined_once(g: EdgeList, u: int, v: int) -> bool { g.has(u, v) != g.has(v, u) }
+
+/// C12: every unordered pair of distinct vertices is joined by at least one arc
+spec fn semicomplete(g: EdgeList) -> bool {
+    forall|u: int, v: int| 0 <= u < g.ord() && 0 <= v < g.ord() && u != v ==> #[trigger] joined(g, u, v)
+}
+
+/// C12: every unordered pair of distinct vertices is joined by exactly one arc
+spec fn tournament(g: EdgeList) -> bool {
+    forall|u: int, v: int| 0 <= u < g.ord() && 0 <= v < g.ord() && u != v ==> #[trigger] joined_once(g, u, v)
+}
+
+/// what the inner `all` of is_semicomplete decides for one u
+spec fn row_joined(g: EdgeList, u: int) -> bool {
+    forall|v: int| u < v < g.ord() ==> #[trigger] joined(g, u, v)
+}
+
+/// what the inner `all` of is_tournament decides for one u
+spec fn row_joined_once(g: EdgeList, u: int) -> bool {
+    forall|v: int| u < v < g.ord() ==> #[trigger] joined_once(g, u, v)
+}
+
+proof fn lemma_tournament_rows(g: EdgeList)
+    ensures tournament(g) == (forall|u: int| 0 <= u < g.ord() ==> #[trigger] row_joined_once(g, u)),
+{
+    if forall|u: int| 0 <= u < g.ord() ==> #[trigger] row_joined_once(g, u) {
+        assert forall|u: int, v: int| 0 <= u < g.ord() && 0 <= v < g.ord() && u != v implies #[trigger] joined_once(g, u, v) by {
+            if u < v { assert(row_joined_once(g, u)); } else { assert(row_joined_once(g, v)); assert(joined_once(g, v, u)); }
+        }
+    }
+}
+
+proof fn lemma_semicomplete_rows(g: EdgeList)
+    ensures semicomplete(g) == (forall|u: int| 0 <= u < g.ord() ==> #[trigger] row_joined(g, u)),
+{
+    if forall|u: int| 0 <= u < g.ord() ==> #[trigger] row_joined(g, u) {
+        assert forall|u: int, v: int| 0 <= u < g.ord() && 0 <= v < g.ord() && u != v implies #[trigger] joined(g, u, v) by {
+            if u < v { assert(row_joined(g, u)); } else { assert(row_joined(g, v)); assert(joined(g, v, u)); }
+        }
+    }
+}
+
+// ---- counting over an abstract arc set: the number of unordered pairs of n vertices is n(n-1)/2 ----
+
+/// the pairs (0, b), .., (k-1, b)
+spec fn column(k: int, b: int) -> Set<(int, int)> { Set::<int>::range(0, k).map(|a: int| (a, b)) }
+
+/// the unordered pairs of 0..n, coded as (a, b) with a < b
+spec fn upper_pairs(n: int) -> Set<(int, int)>
+    decreases n,
+{
+    if n <= 1 { Set::empty() } else { upper_pairs(n - 1) + column(n - 1, n - 1) }
+}
+
+proof fn lemma_column(k: int, b: int)
+    requires k >= 0,
+    ensures column(k, b).len() == k, forall|p: (int, int)| #[trigger] column(k, b).contains(p) == (0 <= p.0 < k && p.1 == b),
+{
+    let rn = Set::<int>::range(0, k);
+    vstd::set_lib::range_set_properties::<int>(0, k);
+    let g = |a: int| (a, b);
+    assert(rn.injective_on(g)) by {
+        assert forall|x1: int, x2: int| rn.contains(x1) && rn.contains(x2) && g(x1) == g(x2) implies x1 == x2 by {}
+    }
+    assert forall|p: (int, int)| #[trigger] column(k, b).contains(p) == (0 <= p.0 < k && p.1 == b) by {
+        rn.lemma_map_contains(g, p);
+        if 0 <= p.0 < k && p.1 == b { assert(rn.contains(p.0) && g(p.0) == p); }
+    }
+    vstd::set_lib::lemma_map_size(rn, column(k, b), g);
+}
+
+proof fn lemma_upper_pairs(n: int)
+    requires n >= 0,
+    ensures
+        upper_pairs(n).len() * 2 == n * n - n,
+        forall|p: (int, int)| #[trigger] upper_pairs(n).contains(p) == (0 <= p.0 < p.1 < n),
+    decreases n,
+{
+    if n <= 1 {
+        assert(n * n - n == 0) by (nonlinear_arith) requires n == 0 || n == 1;
+        assert(upper_pairs(n).len() == 0);
+    } else {
+        lemma_upper_pairs(n - 1);
+        lemma_column(n - 1, n - 1);
+        let prev = upper_pairs(n - 1);
+        let col = column(n - 1, n - 1);
+        assert(prev.disjoint(col));
+        vstd::set_lib::lemma_set_disjoint_lens(prev, col);
+        assert(upper_pairs(n) == prev + col);
+        assert(upper_pairs(n).len() == prev.len() + (n - 1));
+        assert((n - 1) * (n - 1) - (n - 1) + 2 * (n - 1) == n * n - n) by (nonlinear_arith);
+    }
+}
+
+/// the arc set is inside V x V minus the diagonal
+spec fn arcs_in_range(n: int, arcs: Set<(int, int)>) -> bool {
+    forall|p: (int, int)| #[trigger] arcs.contains(p) ==> 0 <= p.0 < n && 0 <= p.1 < n && p.0 != p.1
+}
+spec fn set_joined(arcs: Set<(int, int)>, u: int, v: int) -> bool { arcs.contains((u, v)) || arcs.contains((v, u)) }
+spec fn set_joined_once(arcs: Set<(int, int)>, u: int, v: int) -> bool { arcs.contains((u, v)) != arcs.contains((v, u)) }
+spec fn set_semicomplete(n: int, arcs: Set<(int, int)>) -> bool {
+    forall|u: int, v: int| 0 <= u < n && 0 <= v < n && u != v ==> #[trigger] set_joined(arcs, u, v)
+}
+spec fn set_tournament(n: int, arcs: Set<(int, int)>) -> bool {
+    forall|u: int, v: int| 0 <= u < n && 0 <= v < n && u != v ==> #[trigger] set_joined_once(arcs, u, v)
+}
+/// the arc chosen for the unordered pair p = (a, b), a < b: a -> b if present, else b -> a
+spec fn pair_arc(arcs: Set<(int, int)>, p: (int, int)) -> (int, int) { if arcs.contains(p) { p } else { (p.1, p.0) } }
+
+/// semicomplete ==> at least one arc per unordered pair ==> |A| >= n(n-1)/2;  tournament ==> exactly one ==> |A| == n(n-1)/2
+proof fn lemma_set_pair_count(n: int, arcs: Set<(int, int)>)
+    requires n >= 1, arcs_in_range(n, arcs),
+    ensures
+        set_semicomplete(n, arcs) ==> arcs.len() * 2 >= n * n - n,
+        set_tournament(n, arcs) ==> arcs.len() * 2 == n * n - n,
+{
+    let u = upper_pairs(n);
+    let f = |p: (int, int)| pair_arc(arcs, p);
+    lemma_upper_pairs(n);
+    if set_tournament(n, arcs) {
+        assert forall|a: int, b: int| 0 <= a < n && 0 <= b < n && a != b implies #[trigger] set_joined(arcs, a, b) by {
+            assert(set_joined_once(arcs, a, b));
+        }
+    }
+    if set_semicomplete(n, arcs) {
+        assert(u.injective_on(f)) by {
+            assert forall|x1: (int, int), x2: (int, int)| u.contains(x1) && u.contains(x2) && f(x1) == f(x2) implies x1 == x2 by {}
+        }
+        let img = u.map(f);
+        assert(img.subset_of(arcs)) by {
+            assert forall|q: (int, int)| img.contains(q) implies arcs.contains(q) by {
+                u.lemma_map_contains(f, q);
+                let p = choose|p: (int, int)| u.contains(p) && q == f(p);
+                assert(set_joined(arcs, p.0, p.1));
+            }
+        }
+        vstd::set_lib::lemma_map_size(u, img, f);
+        vstd::set_lib::lemma_len_subset(img, arcs);
+        if set_tournament(n, arcs) {
+            assert(arcs.subset_of(img)) by {
+                assert forall|q: (int, int)| arcs.contains(q) implies img.contains(q) by {
+                    u.lemma_map_contains(f, q);
+                    if q.0 < q.1 {
+                        assert(u.contains(q) && f(q) == q);
+                    } else {
+                        let t = (q.1, q.0);
+                        assert(set_joined_once(arcs, q.0, q.1));
+                        assert(u.contains(t) && f(t) == q);
+                    }
+                }
+            }
+            assert(arcs =~= img);
+        }
+    }
+}
+
+/// the counting facts at the EdgeList: `size()` is |arcs@| = |arc_set()|
+proof fn lemma_pair_count(g: EdgeList)
+    requires g.wf(),
+    ensures
+        semicomplete(g) ==> g.arcs@.len() * 2 >= g.ord() * g.ord() - g.ord(),
+        tournament(g) ==> g.arcs@.len() * 2 == g.ord() * g.ord() - g.ord(),
+{
+    let n = g.ord();
+    let arcs = g.arc_set();
+    lemma_edge_arc_set(g);
+    lemma_edge_wf_has(g);
+    assert(arcs_in_range(n, arcs)) by {
+        assert forall|p: (int, int)| #[trigger] arcs.contains(p) implies 0 <= p.0 < n && 0 <= p.1 < n && p.0 != p.1 by {
+            assert(g.has(p.0, p.1));
+        }
+    }
+    if semicomplete(g) {
+        assert forall|u: int, v: int| 0 <= u < n && 0 <= v < n && u != v implies #[trigger] set_joined(arcs, u, v) by {
+            assert(joined(g, u, v));
+        }
+    }
+    if tournament(g) {
+        assert forall|u: int, v: int| 0 <= u < n && 0 <= v < n && u != v implies #[trigger] set_joined_once(arcs, u, v) by {
+            assert(joined_once(g, u, v));
+        }
+    }
+    lemma_set_pair_count(n, arcs);
+}
+
+impl EdgeList {
+    // FINDING (C12/C13, see report): `order * (order - 1)` overflows usize for order > 2^32, e.g.
+    // `EdgeList::empty(1 << 33).is_tournament()` panics in a debug build ("attempt to multiply with overflow", not a
+    // documented panic) and silently wraps in a release build.  The contract is therefore proved for order <= 2^32 only.
+    /*@fn impl=EdgeList trait=IsSemicomplete name=is_semicomplete props=C12,C13
+    requires
+        self.wf(),
+        self.ord() <= 0x1_0000_0000,
+    ensures
+        r == semicomplete(*self),
+    @closure 1 |u: usize| -> (b: bool)
+    requires
+        u < order,
+    ensures
+        b == row_joined(*self, u as int),
+    @closure 2 |v: usize| -> (b2: bool)
+    ensures
+        b2 == joined(*self, u as int, v as int),
+    @after `let order = self.order();`
+        proof {
+            assert(order * (order - 1) == order * order - order) by (nonlinear_arith) requires order >= 1;
+            assert(order * (order - 1) <= usize::MAX) by (nonlinear_arith) requires 1 <= order <= 0x1_0000_0000;
+            lemma_pair_count(*self);
+            lemma_semicomplete_rows(*self);
+            let rem = (core::ops::Range { start: 0usize, end: order }).remaining();
+            assert forall|a: int| 0 <= a < order implies #[trigger] row_joined(*self, a) == row_joined(*self, rem[a] as int) by {}
+        }
+    @before `(u +`
+        proof {
+            let rem2 = (core::ops::Range { start: (u + 1) as usize, end: order }).remaining();
+            assert forall|c: int| u < c < order implies #[trigger] joined(*self, u as int, c) == joined(*self, u as int, rem2[c - u - 1] as int) by {}
+        }
+    @*/
+
+    /*@fn impl=EdgeList trait=IsTournament name=is_tournament props=C12,C13
+    requires
+        self.wf(),
+        self.ord() <= 0x1_0000_0000,
+    ensures
+        r == tournament(*self),
+    @closure 1 |u: usize| -> (b: bool)
+    requires
+        u < order,
+    ensures
+        b == row_joined_once(*self, u as int),
+    @closure 2 |v: usize| -> (b2: bool)
+    ensures
+        b2 == joined_once(*self, u as int, v as int),
+    @after `let order = self.order();`
+        proof {
+            assert(order * (order - 1) == order * order - order) by (nonlinear_arith) requires order >= 1;
+            assert(order * (order - 1) <= usize::MAX) by (nonlinear_arith) requires 1 <= order <= 0x1_0000_0000;
+            lemma_pair_count(*self);
+            lemma_tournament_rows(*self);
+            let rem = (core::ops::Range { start: 0usize, end: order }).remaining();
+            assert forall|a: int| 0 <= a < order implies #[trigger] row_joined_once(*self, a) == row_joined_once(*self, rem[a] as int) by {}
+        }
+    @before `(u +`
+        proof {
+            let rem2 = (core::ops::Range { start: (u + 1) as usize, end: order }).remaining();
+            assert forall|c: int| u < c < order implies #[trigger] joined_once(*self, u as int, c) == joined_once(*self, u as int, rem2[c - u - 1] as int) by {}
+        }
+    @*/
+}
